@@ -56,6 +56,12 @@ def classes():
     class RowParallelLinear(torch.nn.Linear):
         pass
 
+    class LoRARowParallelLinear(torch.nn.Linear):
+        """class names that merely END with a supported GPT-NeoX name are other layer types"""
+
+    class TELayerNormColumnParallelLinear(torch.nn.Linear):
+        pass
+
     class Block(torch.nn.Module):
         pass
 
@@ -66,6 +72,7 @@ def classes():
 
     return dict(ScaledLinear=ScaledLinear, GatedConv2d=GatedConv2d, MyLinear=MyLinear, Conv2dSub=Conv2dSub, LinWithChild=LinWithChild,
                 ColumnParallelLinear=ColumnParallelLinear, RowParallelLinear=RowParallelLinear,
+                LoRARowParallelLinear=LoRARowParallelLinear, TELayerNormColumnParallelLinear=TELayerNormColumnParallelLinear,
                 Block=Block, linear=linear)
 
 
@@ -77,7 +84,7 @@ def gen_tree(rng, C, depth=0, pool=None):
     if depth >= 3 or (depth > 0 and r < 0.55):
         kind = rng.choice(['Linear', 'Linear', 'Conv2d', 'MyLinear', 'Conv2dSub', 'ReLU', 'BatchNorm2d',
                            'LayerNorm', 'Embedding', 'Column', 'Row', 'LinWithChild', 'Identity', 'fake',
-                           'Conv1d', 'shared', 'ScaledLinear', 'GatedConv2d'])
+                           'Conv1d', 'shared', 'ScaledLinear', 'GatedConv2d', 'LoRARow', 'TECol'])
         if kind == 'shared' and pool:
             return rng.choice(pool)
         bias = rng.random() < 0.7
@@ -89,6 +96,7 @@ def gen_tree(rng, C, depth=0, pool=None):
             'Row': lambda: C['RowParallelLinear'](2, 2, bias=bias), 'LinWithChild': lambda: C['LinWithChild'](2, 2),
             'Identity': nn.Identity, 'fake': C['linear'], 'Conv1d': lambda: nn.Conv1d(1, 1, 1),
             'shared': lambda: nn.Linear(2, 2),
+            'LoRARow': lambda: C['LoRARowParallelLinear'](2, 2, bias=bias), 'TECol': lambda: C['TELayerNormColumnParallelLinear'](2, 2, bias=bias),
             'ScaledLinear': lambda: C['ScaledLinear'](2, 2, bias=bias), 'GatedConv2d': lambda: C['GatedConv2d'](1, 1, 1, bias=bias),
         }[kind]()
         fr = rng.random()
